@@ -59,6 +59,16 @@ Definition bump (c : table -> nat) (t : table) : table -> nat := fun t' => if ta
 Definition hits (f : fault) (c : table -> nat) (t : table) : bool :=
   match f with Some (t', k) => table_eqb t t' && Nat.eqb (c t) k | None => false end.
 
+(* the node-table fault of the harness counts SUCCESSFUL inserts into rht (an insert refused as duplicate rolls its own
+   trigger side effects back): fault (TRht, k) fires on the insert attempted when 32*k+5 new nodes have been written in this
+   call. `n_new` = number of new nodes the current leaf writes. *)
+Definition hits_rht (f : fault) (c : table -> nat) (n_new : nat) : bool :=
+  match f with
+  | Some (TRht, k) => Nat.leb (c TRht) (32 * k + 5)%nat && Nat.ltb (32 * k + 5)%nat (c TRht + n_new)%nat
+  | _ => false
+  end.
+Definition bump_by (c : table -> nat) (t : table) (n : nat) : table -> nat := fun t' => if table_eqb t' t then (c t' + n)%nat else c t'.
+
 Definition row_key_exists (rs : list row) (b p : N) : bool := existsb (fun r => (w_block r =? b) && (w_pos r =? p)) rs.
 
 Definition set_tree (d : bdb) (t : tdb) : bdb := mkBdb (d_blocks d) (d_bridges d) (d_claims d) (d_tm d) (d_legacy d) t.
@@ -76,13 +86,14 @@ Definition process_event (f : fault) (blk : N) (x : txc) (e : event) : perr + tx
   let d := x_db x in
   match e with
   | EBridge b =>
-    (* exitTree.AddLeaf: root insert, then the rht inserts (modelled as ONE counted write to TRht), lastIndex++ *)
+    (* exitTree.AddLeaf: root insert, then the rht inserts (see hits_rht), lastIndex++ *)
     match TreeStore.Gen.add_leaf_exec HT node zhf (d_tree d) (x_mem x) blk (b_pos b) (b_dc b) (leafh b) with
     | (mem', inl e) => inl (PTree e)
     | (mem', inr t') =>
+      let n_new := (NM.cardinal (t_rht t') - NM.cardinal (t_rht (d_tree d)))%nat in
       if hits f (x_cnt x) TRoot then inl PFault else
-      if hits f (bump (x_cnt x) TRoot) TRht then inl PFault else
-      let c1 := bump (bump (x_cnt x) TRoot) TRht in
+      if hits_rht f (x_cnt x) n_new then inl PFault else
+      let c1 := bump_by (bump (x_cnt x) TRoot) TRht n_new in
       if hits f c1 TBridge then inl PFault else
       if existsb (fun r => (fst r =? blk) && (b_pos (snd r) =? b_pos b)) (d_bridges d) then inl PConstraint else
       inr (mkTx (mkBdb (d_blocks d) (d_bridges d ++ [(blk, b)]) (d_claims d) (d_tm d) (d_legacy d) t')
@@ -118,8 +129,9 @@ Definition after_failed_event (f : fault) (blk : N) (x : txc) (e : event) : tmem
   | EBridge b =>
     match TreeStore.Gen.add_leaf_exec HT node zhf (d_tree (x_db x)) (x_mem x) blk (b_pos b) (b_dc b) (leafh b) with
     | (mem', inl _) => (mem', x_added x)
-    | (mem', inr _) =>
-      if hits f (x_cnt x) TRoot || hits f (bump (x_cnt x) TRoot) TRht then (mem', x_added x)
+    | (mem', inr t') =>
+      let n_new := (NM.cardinal (t_rht t') - NM.cardinal (t_rht (d_tree (x_db x))))%nat in
+      if hits f (x_cnt x) TRoot || hits_rht f (x_cnt x) n_new then (mem', x_added x)
       else (mem_commit_leaf mem', S (x_added x))
     end
   | _ => (x_mem x, x_added x)
